@@ -561,8 +561,9 @@ Print Assumptions c11_sound_full_holm.
      pij = ge1/max(1,n), q1 = max, qdiff = |pij1-pij2|/max (or /1), fold = |mean1-mean2|
      p = p_of_cdf of the ORACLE value t.cdf(t, nu) (t_cdf : tnu -> option Z, a function of the modelled
        statistic; on the wire a finite table, Model/Welch.v table_cdf), 0.5 if skipped or NaN
-   var is the BINARY64 variance var_f (every operation rounded to 53 bits), so that zero / negative / positive
-   is decided as the code decides it; the other quantities are exact rationals
+   var, the means and mean1 - mean2 (hence log2_fold and the direction) are the BINARY64 values (var_f, mean_f,
+   mdiff_f: every operation rounded to 53 bits), because their sign / zero-ness is decided by cancellation
+   residues when a gene is constant at a non-dyadic value; pij, q1, qdiff, t^2 and nu are exact rationals of those
    tied to the real functions by tags 1150-1154 (harness: welch_cases: exact-grid inputs and non-dyadic
    constant genes whose stored statistics are read as exact dyadics).
    sdg_stats st mask D H lo hi T b t_cdf s1 s2 = score_differential_genes on that pair. *)
@@ -600,13 +601,13 @@ Example c11_off_threshold_unfold : forall th D S c1 c2,
   off_threshold th D S c1 c2 <->
   (fst (q1_r c1 c2) * S <> q1_th th * snd (q1_r c1 c2) /\ fst (q1_r c1 c2) * S <> q1_min th * snd (q1_r c1 c2) /\
    fst (qdiff_r c1 c2) * S <> qdiff_th th * snd (qdiff_r c1 c2) /\ fst (qdiff_r c1 c2) * S <> qdiff_min th * snd (qdiff_r c1 c2) /\
-   fst (fold_r D c1 c2) * S <> fold_th th * snd (fold_r D c1 c2) /\ fst (fold_r D c1 c2) * S <> fold_min th * snd (fold_r D c1 c2)).
+   fst (fold_f D c1 c2) * S <> fold_th th * snd (fold_f D c1 c2) /\ fst (fold_f D c1 c2) * S <> fold_min th * snd (fold_f D c1 c2)).
 Proof. intros. reflexivity. Qed.
 Example c11_stat_crit_unfold : forall th exact D S c1 c2,
   stat_crit th exact D S c1 c2 <->
   exists q1 qd f,
     q1 * snd (q1_r c1 c2) = fst (q1_r c1 c2) * S /\ qd * snd (qdiff_r c1 c2) = fst (qdiff_r c1 c2) * S /\
-    f * snd (fold_r D c1 c2) = fst (fold_r D c1 c2) * S /\
+    f * snd (fold_f D c1 c2) = fst (fold_f D c1 c2) * S /\
     (if exact then q1_th th < q1 /\ qdiff_th th < qd /\ fold_th th < f
      else q1_min th <= q1 /\ qdiff_min th <= qd /\ fold_min th <= f) /\
     (if exact then q1_th th < q1 /\ qdiff_th th < qd /\ fold_th th < f
@@ -630,14 +631,14 @@ Proof.
 Qed.
 (* A1, direction 2: n1 = 10, ge1 = 9; n2 = 2, ge1 = 2: pij = 9/10 and 1, qdiff = 1/10 EXACTLY = qdiff_min_th.  The
    exact model keeps the gene above the floor and the relaxation (n_valid = 1) records it; the real code computes
-   |0.9 - 1.0|/1.0 = 0.09999999999999998 < 0.1, marks the gene invalid and records NOTHING (cells: nine 2.0 and
-   one 0.0 against 8.0, 9.0; p_th = 0.5). *)
+   |0.9 - 1.0|/1.0 = 0.09999999999999998 < 0.1, marks the gene invalid and records NOTHING (cells: eight 2.0, one
+   4.0 and one 0.0 against 8.0, 9.0 - all means dyadic; p_th = 0.5, raw p = 0.0111). *)
 Example c11_floor_hit_rejects_what_exact_admits :
-  let c1 := mk_cstat 10 18 36 9 in let c2 := mk_cstat 2 17 145 2 in
+  let c1 := mk_cstat 10 20 48 9 in let c2 := mk_cstat 2 17 145 2 in
   fst (qdiff_r c1 c2) * 1200 = 120 * snd (qdiff_r c1 c2) /\
   ~ off_threshold (st_th (c11_hit_st false)) 1 1200 c1 c2 /\
-  sdg_stats (c11_hit_st false) None 1 500000 1 999999 500000 None (fun _ => Some 11915)
-            (mk_summary 10 [18] [36] [9] [9] [9]) (mk_summary 2 [17] [145] [2] [2] [2]) = POk ([true], [true]).
+  sdg_stats (c11_hit_st false) None 1 500000 1 999999 500000 None (fun _ => Some 5561)
+            (mk_summary 10 [20] [48] [9] [9] [9]) (mk_summary 2 [17] [145] [2] [2] [2]) = POk ([true], [true]).
 Proof.
   cbv zeta. split; [vm_compute; reflexivity|]. split; [|vm_compute; reflexivity].
   intros (_ & _ & _ & O4 & _). apply O4. vm_compute. reflexivity.
@@ -769,7 +770,7 @@ Theorem c11_complete_from_stats : forall st mask D H lo hi T b t_cdf s1 s2 v up 
   in_list mask g ->
   0 <= c_ge1 c1 -> 0 <= c_ge1 c2 -> off_threshold (st_th st) D (st_S st) c1 c2 ->
   to_S (st_S st) (q1_r c1 c2) = Some q1 -> to_S (st_S st) (qdiff_r c1 c2) = Some qd ->
-  to_S (st_S st) (fold_r D c1 c2) = Some f ->
+  to_S (st_S st) (fold_f D c1 c2) = Some f ->
   on_or_above_thresholds (st_th st) (q1, qd, f) ->
   nth_error v g = Some true.
 Proof. exact sdg_stats_complete. Qed.
@@ -797,7 +798,7 @@ Print Assumptions c11_stats_pair_wf.
    The earlier comment here ("never recorded ... observed on every run") was true of dyadic constants only. *)
 Theorem c11_welch_zero_variance : forall D c1 c2,
   1 <= c_n c1 -> 1 <= c_n c2 -> fst (var_f D c1) = 0 -> fst (var_f D c2) = 0 ->
-  exists nud, welch_gene D c1 c2 = TN_tiny (fst (mdiff_r D c1 c2)) (snd (mdiff_r D c1 c2)) 0 nud.
+  exists nud, welch_gene D c1 c2 = TN_tiny (fst (mdiff_f D c1 c2)) (snd (mdiff_f D c1 c2)) 0 nud.
 Proof. exact welch_zero_variance. Qed.
 Print Assumptions c11_welch_zero_variance.
 
@@ -808,7 +809,7 @@ Theorem c11_welch_constant_gene : forall st mask D H lo hi T b t_cdf s1 s2 v up 
   sdg_stats st mask D H lo hi T b t_cdf s1 s2 = POk (v, up) ->
   cstats_of s1 = POk l1 -> cstats_of s2 = POk l2 -> nth_error l1 g = Some c1 -> nth_error l2 g = Some c2 ->
   1 <= c_n c1 -> 1 <= c_n c2 -> fst (var_f D c1) = 0 -> fst (var_f D c2) = 0 ->
-  (exists nud, welch_gene D c1 c2 = TN_tiny (fst (mdiff_r D c1 c2)) (snd (mdiff_r D c1 c2)) 0 nud) /\
+  (exists nud, welch_gene D c1 c2 = TN_tiny (fst (mdiff_f D c1 c2)) (snd (mdiff_f D c1 c2)) 0 nud) /\
   nth_error (welch_pvalues H lo hi b t_cdf (welch_genes D l1 l2)) g = Some (2 * H) /\
   nth_error v g <> Some true.
 Proof. exact constant_gene_not_recorded. Qed.
@@ -856,7 +857,7 @@ Theorem c11_welch_swap_boring : forall bn bd g, tnu_boring bn bd (tnu_neg g) = t
 Proof. exact tnu_boring_neg. Qed.
 Print Assumptions c11_welch_swap_boring.
 Theorem c11_welch_swap_scores : forall D c1 c2,
-  fold_r D c2 c1 = (fst (fold_r D c1 c2), snd (fold_r D c2 c1)) /\ snd (fold_r D c2 c1) = snd (fold_r D c1 c2) /\
+  fold_f D c2 c1 = (fst (fold_f D c1 c2), snd (fold_f D c2 c1)) /\ snd (fold_f D c2 c1) = snd (fold_f D c1 c2) /\
   req (q1_r c2 c1) (q1_r c1 c2) /\
   (0 <= c_ge1 c1 -> 0 <= c_ge1 c2 -> req (qdiff_r c2 c1) (qdiff_r c1 c2)).
 Proof. exact welch_scores_swap. Qed.
